@@ -407,6 +407,13 @@ def c02_5(ctx):
         ok = bool(sts) and all(unparse(v) == 'self._count_expr.get_value(self.label_scope, self.line_id)' for _, _, v in sts)
         ctx.check(ok, f'size:fill:count-source:{mname}', m.site(), '_count is the value of the count expression in the line\'s own scope',
                   '; '.join(unparse(s) for s, _, _ in sts) or 'no store')
+    # a reserved size is never negative (a negative .fill / .zero count would move the address backwards)
+    bsf = fd.methods['byte_size']
+    rb = resolver(ctx, bsf, inline=False)
+    for r in returns(bsf):
+        ok = clause_implies(facts_at(ctx, bsf, r, rb), lit_cmp(ctx, bsf, 'self._count >= 0', rb))
+        ctx.check(ok, 'size:fill:non-negative', bsf.site(r), 'the space reserved by .fill / .zero is returned only if the count is not negative (else exit)',
+                  'no dominating abort on a negative count: the next line is placed below this one')
     # FillUntil: emits self.byte_size bytes
     fu = ctx.repo.cls('bespokeasm.assembler.line_object.directive_line.fill_data.FillUntilDataLine')
     gb = fu.methods['generate_bytes']
@@ -559,6 +566,7 @@ RULES = [c02_predefined, c02_1, c02_2, c02_3, c02_4, c02_5, c02_6, c02_macro_siz
 _E = 'assembler/engine.py'
 _FD = 'assembler/line_object/directive_line/fill_data.py'
 MUTANTS = [
+    V('c02-negative-fill-accepted', 'assembler/line_object/directive_line/fill_data.py', "        if self._count < 0:\n            sys.exit(f'ERROR: {self.line_id} - the fill count {self._count} is negative')\n        return self._count", "        return self._count", 'C02.5'),
     V('c02-predefined-constant-name-as-value', 'assembler/model/__init__.py', "                value: int = predefined_constant['value']", "                value: int = predefined_constant.get('address', predefined_constant['value'])", 'CFG.3'),
     V('c02-bind-before-address', _E, '''            lobj.set_start_address(lobj.memory_zone.current_address)
             if lobj.address is None:''', '''            if isinstance(lobj, LabelLine) and not lobj.is_constant:
